@@ -16,7 +16,6 @@ import (
 	"github.com/bluenviron/gortsplib/v5"
 	"github.com/bluenviron/gortsplib/v5/pkg/auth"
 	"github.com/bluenviron/gortsplib/v5/pkg/base"
-	"github.com/bluenviron/gortsplib/v5/pkg/liberrors"
 	"github.com/google/uuid"
 
 	"github.com/bluenviron/mediamtx/internal/certloader"
@@ -391,11 +390,12 @@ func (s *Server) OnSessionOpen(ctx *gortsplib.ServerHandlerOnSessionOpenCtx) {
 // OnSessionClose implements gortsplib.ServerHandlerOnSessionClose.
 func (s *Server) OnSessionClose(ctx *gortsplib.ServerHandlerOnSessionCloseCtx) {
 	s.mutex.Lock()
-	se := s.sessions[ctx.Session]
 	delete(s.sessions, ctx.Session)
 	s.mutex.Unlock()
 
-	if se != nil {
+	// do not look up the session in s.sessions,
+	// since sessions kicked through the API have already been removed from there.
+	if se, ok := ctx.Session.UserData().(*session); ok {
 		se.onClose(ctx.Error)
 	}
 }
@@ -581,16 +581,17 @@ func (s *Server) APISessionsKick(uuid uuid.UUID) error {
 	default:
 	}
 
-	s.mutex.RLock()
-	defer s.mutex.RUnlock()
+	s.mutex.Lock()
+	defer s.mutex.Unlock()
 
 	key, sx := s.findSessionByUUID(uuid)
 	if sx == nil {
 		return ErrSessionNotFound
 	}
 
+	// resources are released by OnSessionClose(), that is called
+	// after the session has stopped processing requests and packets.
 	sx.Close()
 	delete(s.sessions, key)
-	sx.onClose(liberrors.ErrServerTerminated{})
 	return nil
 }
